@@ -1019,7 +1019,7 @@ class Extractor:
                 if toks[b].text == '{':
                     be = match_close(toks, b)
                     expr_s, expr_e = toks[b].start, toks[be].end
-                    inner = body[expr_s:expr_e]
+                    wrap = False
                 else:
                     j = b
                     while j < len(toks) and toks[j].text not in (')', ',', ';', '}'):
@@ -1027,9 +1027,15 @@ class Extractor:
                             j = match_close(toks, j)
                         j += 1
                     expr_s, expr_e = toks[b].start, toks[j - 1].end
-                    inner = '{ ' + body[expr_s:expr_e] + ' }'
-                new = sig + '\n' + text + '\n' + inner
-                inserts.append((toks[k].start, ('REPLACE', expr_e, new), 1))
+                    wrap = True
+                # A11 for closures: statements after a line `--` in the contract text are a prologue that binds the names of a
+                # destructuring parameter pattern (`|[a, b], bc|` -> `|ab__: [T; 2], bc|` + `let a = ab__[0]; let b = ab__[1];`)
+                prologue = ''
+                if '\n--\n' in '\n' + text + '\n':
+                    text, _, prologue = ('\n' + text + '\n').partition('\n--\n')
+                    text = text.strip('\n')
+                    prologue = prologue.strip('\n')
+                inserts.append((toks[k].start, ('CLOSURE', expr_s, expr_e, sig, text, wrap, prologue), 1))
         for nm, (ret, text) in fs.nested.items():
             hit = None
             for k in range(len(toks) - 2):
@@ -1053,19 +1059,42 @@ class Extractor:
             else:
                 inserts.append((toks[b].start, '\n' + text + '\n', 1))
         inserts.sort(key=lambda x: (x[0], x[2]))
-        segs = []
-        pos = 0
-        for off, text, _ in inserts:
-            segs.append((body[pos:off], False))
-            if isinstance(text, tuple):
-                _, end, new = text
-                segs.append((new, True))
-                pos = end
-            else:
-                segs.append((text, True))
-                pos = off
-        segs.append((body[pos:], False))
-        return segs
+
+        def render(lo, hi):
+            # inserts inside a closure that gets a contract are rendered recursively, so contracts nest
+            segs = []
+            pos = lo
+            for off, item, _ in inserts:
+                if off < pos or off < lo or off >= hi:
+                    continue
+                segs.append((body[pos:off], False))
+                if isinstance(item, tuple) and item[0] == 'CLOSURE':
+                    _, es, ee, sig, text, wrap, prologue = item
+                    segs.append((sig + '\n' + text + '\n' + ('{ ' if wrap else ''), True))
+                    if prologue:
+                        if wrap:
+                            segs.append((prologue + '\n', True))
+                            segs.extend(render(es, ee))
+                        else:
+                            # the body is a block: the prologue goes right after its opening brace
+                            segs.append((body[es:es + 1], False))
+                            segs.append(('\n' + prologue + '\n', True))
+                            segs.extend(render(es + 1, ee))
+                    else:
+                        segs.extend(render(es, ee))
+                    if wrap:
+                        segs.append((' }', True))
+                    pos = ee
+                elif isinstance(item, tuple):
+                    _, end, new = item
+                    segs.append((new, True))
+                    pos = end
+                else:
+                    segs.append((item, True))
+                    pos = off
+            segs.append((body[pos:hi], False))
+            return segs
+        return render(0, len(body))
 
     # ---- emit ------------------------------------------------------------------
     def emit_fn(self, out, res, sf, it, fs, qual, canary):
